@@ -43,7 +43,11 @@ def run(ck, progs):
     ck.rule("C12.3", "rs_realloc: the common prefix min(requested, original) is copied to the new block before the old one is freed; the old "
                      "block is freed only after a successful allocation")
     ck.rule("C12.4", "rs_free(NULL) returns before touching anything")
+    ck.rule("C12.5", "tree index arithmetic, evaluated exhaustively over all nodes of the fixed-size tree: child/parent macros are mutually "
+                     "inverse; the block offset formula of buddy_malloc and of the checkpoint walker are the same function, give blocks inside "
+                     "the arena aligned to their size, disjoint within a level; the leaf index used by buddy_free / realloc inverts it")
     for cfg, P in progs.items():
+        _index_arithmetic(ck, P, cfg)
         _clean_failure(ck, P, cfg)
         _calloc(ck, P, cfg)
         _realloc(ck, P, cfg)
@@ -270,3 +274,155 @@ def _free_null(ck, P, cfg):
     else:
         ck.holds("C12.4", "free-null@rs_free", f.where, "all %d operations are reachable only with a non-NULL pointer" % len(work), cfg)
     ck.expect("C12.4", len(work), 3, "operations in rs_free")
+
+
+def _index_arithmetic(ck, P, cfg):
+    from .. import ceval
+    bm = P.fn("buddy_malloc")
+    bf = P.fn("buddy_free")
+    tk = P.fn("checkpoint_full_take")
+    total = None
+    for fl in P.record("buddy_state")["fields"]:
+        if fl["name"] == "base_mem":
+            total = fl["size"]
+        if fl["name"] == "longest":
+            nodes = fl["size"]
+    T = total.bit_length() - 1
+    n_leaves = nodes // 2
+    B = T - (n_leaves.bit_length() - 1)
+
+    def expansion(f, macro):
+        tops = X.expansions(f.root, macro)
+        return tops[0] if tops else None
+
+    def argname(top, macro):
+        from ..rules_part import macro_args
+        for a in macro_args(top, macro):
+            for x in a.walk():
+                if x.k == "DeclRefExpr" and x.d.get("dk") == "var":
+                    return x.name
+        return None
+    L, R_, Pm = expansion(bm, "buddy_left_child"), expansion(bm, "buddy_right_child"), expansion(bm, "buddy_parent")
+    inst = "child-parent"
+    if not (L and R_ and Pm):
+        ck.inconclusive("C12.5", inst, bm.where, "child/parent macros not found in buddy_malloc", cfg)
+    else:
+        la, ra, pa = argname(L, "buddy_left_child"), argname(R_, "buddy_right_child"), argname(Pm, "buddy_parent")
+        bad = None
+        for i in range(0, nodes - 1):
+            l = ceval.ev(L, {la: i})
+            r = ceval.ev(R_, {ra: i})
+            if l is None or r is None:
+                bad = "cannot evaluate"
+                break
+            if i < n_leaves - 1:
+                if ceval.ev(Pm, {pa: l}) != i or ceval.ev(Pm, {pa: r}) != i or r != l + 1 or l != 2 * i + 1:
+                    bad = "node %d: left %s right %s parent(left) %s parent(right) %s" % (i, l, r, ceval.ev(Pm, {pa: l}), ceval.ev(Pm, {pa: r}))
+                    break
+        if bad is None:
+            ck.holds("C12.5", inst, L.where, "left(i) = 2i+1, right(i) = 2i+2, parent(left(i)) = parent(right(i)) = i for all %d inner nodes" % (n_leaves - 1), cfg)
+        elif bad == "cannot evaluate":
+            ck.inconclusive("C12.5", inst, L.where, bad, cfg)
+        else:
+            ck.violated("C12.5", inst, L.where, "the implicit tree is inconsistent: " + bad, cfg)
+    # offset formulas
+    def offset_expr(f, names):
+        for v in f.walk():
+            if v.k == "VarDecl" and v.name in names and v.children:
+                # the variable must have this single definition, else the formula below is not the whole story
+                for n in f.walk():
+                    if n.k in ("BinaryOperator", "CompoundAssignOperator", "UnaryOperator") and n.children and X.strip(n.children[0]).k == "DeclRefExpr" and \
+                            X.strip(n.children[0]).did == v.did and (n.k == "CompoundAssignOperator" or n.d.get("op") in ("=", "++", "--")):
+                        return None
+                return v.children[0]
+        return None
+    om = offset_expr(bm, ("offset",))
+    ov = offset_expr(tk, ("__o",))
+    inst = "block-offset"
+    if om is None or ov is None:
+        ck.inconclusive("C12.5", inst, bm.where, "offset expressions not found", cfg)
+    else:
+        vm = sorted({x.name for x in om.walk() if x.k == "DeclRefExpr" and x.d.get("dk") == "var"})
+        vv = sorted({x.name for x in ov.walk() if x.k == "DeclRefExpr" and x.d.get("dk") == "var"})
+        if len(vm) != 2 or len(vv) != 2:
+            ck.inconclusive("C12.5", inst, om.where, "offset expressions are not functions of (node index, level): %s / %s" % (vm, vv), cfg)
+        else:
+            # identify which variable is the index (the one incremented by 1 inside) by evaluating at the root
+            def ev2(e, names, i, l):
+                for a, b in ((names[0], names[1]), (names[1], names[0])):
+                    v = ceval.ev(e, {a: i, b: l})
+                    if v is not None and i == 0 and l == T and v == 0:
+                        return (a, b)
+                return None
+            nm, nv = ev2(om, vm, 0, T), ev2(ov, vv, 0, T)
+            bad = None
+            if nm is None or nv is None:
+                bad = "the root block does not start at offset 0"
+            else:
+                seen = {}
+                for i in range(nodes - 1):
+                    lvl = T - ((i + 1).bit_length() - 1)
+                    a = ceval.ev(om, {nm[0]: i, nm[1]: lvl})
+                    b = ceval.ev(ov, {nv[0]: i, nv[1]: lvl})
+                    if a is None or b is None:
+                        bad = "cannot evaluate"
+                        break
+                    size = 1 << lvl
+                    if a != b:
+                        bad = "node %d (level %d): the allocator places it at offset %d, the checkpoint walker copies from %d" % (i, lvl, a, b)
+                        break
+                    if a < 0 or a + size > total or a % size:
+                        bad = "node %d (level %d, %d bytes): offset %d is outside the arena or not aligned to the block size" % (i, lvl, size, a)
+                        break
+                    if (lvl, a) in seen:
+                        bad = "nodes %d and %d of level %d share offset %d" % (seen[(lvl, a)], i, lvl, a)
+                        break
+                    seen[(lvl, a)] = i
+            if bad is None:
+                ck.holds("C12.5", inst, om.where, "for all %d nodes the allocator's and the checkpoint walker's offset agree, lie inside the %d-byte arena, are aligned to the block size and distinct within a level" % (nodes - 1, total), cfg)
+            elif bad == "cannot evaluate":
+                ck.inconclusive("C12.5", inst, om.where, bad, cfg)
+            else:
+                ck.violated("C12.5", inst, om.where, bad, cfg)
+            # leaf index of buddy_free / best_effort_realloc inverts the offset at leaf level
+            for fn in (bf, P.fn("buddy_best_effort_realloc")):
+                iv = None
+                for v in fn.walk():
+                    if v.k == "VarDecl" and v.name == "i" and v.children:
+                        iv = v
+                inst2 = "leaf-index@%s" % fn.name
+                if iv is None or nm is None:
+                    ck.inconclusive("C12.5", inst2, fn.where, "leaf index expression not found", cfg)
+                    continue
+                ovars = sorted({x.name for x in iv.children[0].walk() if x.k == "DeclRefExpr" and x.d.get("dk") == "var"})
+                if len(ovars) != 1:
+                    ck.inconclusive("C12.5", inst2, iv.where, "leaf index is not a function of the block number alone", cfg)
+                    continue
+                bad2 = None
+                for o in range(n_leaves):
+                    i = ceval.ev(iv.children[0], {ovars[0]: o})
+                    if i is None:
+                        bad2 = "cannot evaluate"
+                        break
+                    off = ceval.ev(om, {nm[0]: i, nm[1]: B})
+                    if off != o << B or not (n_leaves - 1 <= i < nodes - 1):
+                        bad2 = "block %d maps to node %s, whose offset is %s, not %d" % (o, i, off, o << B)
+                        break
+                # the block number is (ptr - base) >> B
+                ov_ = None
+                for v in fn.walk():
+                    if v.k == "VarDecl" and v.name == ovars[0] and v.children:
+                        ov_ = X.strip(v.children[0])
+                shift_ok = ov_ is not None and ov_.k == "BinaryOperator" and ov_.op == ">>" and X.const_int(ov_.children[1]) == B and "base_mem" in X.show(ov_.children[0])
+                if bad2 is None and shift_ok:
+                    ck.holds("C12.5", inst2, iv.where, "leaf(o) inverts the offset formula for all %d minimum blocks; o = (ptr - base_mem) >> %d" % (n_leaves, B), cfg)
+                elif bad2 == "cannot evaluate" or (bad2 is None and not shift_ok):
+                    ck.inconclusive("C12.5", inst2, iv.where, bad2 or "block number expression not recognised", cfg)
+                else:
+                    ck.violated("C12.5", inst2, iv.where, "the node found for a pointer is not the one the pointer was allocated from: " + bad2, cfg)
+    # buddy_malloc returns base_mem + offset
+    rets = [r for r in bm.walk() if r.k == "ReturnStmt" and not X.is_null(r.children[0])]
+    if rets and "base_mem" in X.show(rets[-1].children[0]) and "offset" in X.show(rets[-1].children[0]):
+        ck.holds("C12.5", "return@buddy_malloc", rets[-1].where, "returns base_mem + offset", cfg)
+    else:
+        ck.violated("C12.5", "return@buddy_malloc", bm.where, "buddy_malloc does not return base_mem + the computed offset", cfg)
